@@ -417,6 +417,7 @@ class ActionLink(Action):
         actions = get_link_actions(parser, "instantiate")
         if actions:
             targets = set()
+            sources = set()
             graph = DirectedGraph()
 
             # Add instantiation links as edges
@@ -424,18 +425,19 @@ class ActionLink(Action):
                 target = re.sub(r"\.init_args$", "", split_key_leaf(action.target[0])[0])
                 for _, source_action in action.source:
                     graph.add_edge(source_action.dest, target)
+                    if not is_nested_instantiation_link(action):
+                        sources.add(source_action.dest)
                 targets.add(target)
 
-            # Add instantiation target prefixes as edges
-            targets = sorted(targets, key=lambda x: len(split_key(x)))
-            seen_targets = {targets[0]}
-            for target in targets[1:]:
+            # Add instantiation target prefixes as edges: a nested target is instantiated before an
+            # enclosing component that is itself a target or the source of a link to another component
+            linked = targets | sources
+            for target in sorted(targets, key=lambda x: len(split_key(x))):
                 parts = [x.replace("|", ".") for x in target.replace("init_args.", "init_args|").split(".")]
                 for num in range(len(parts) - 1):
                     target_prefix = ".".join(parts[: num + 1])
-                    if target_prefix in seen_targets:
+                    if target_prefix in linked:
                         graph.add_edge(target, target_prefix)
-                seen_targets.add(target)
 
             return graph.get_topological_order()
         return []
